@@ -88,8 +88,8 @@ PROPS = {
               "re-clamps the column off the terminator, and after a motion xoff is a ren_noeol "
               "value (V1).",
               "where a motion lands (behavioural, over runtime text)."),
-    "C09": _p(["V3", "V4", "T4", "B1", "I2", "Q1", "Q2", "V8"],
-              "the save of the key record for `.` is guarded only by values of the current loop iteration, never by a static or global (V8); term_push queues every key it is given or reports it to callers that look (Q2, abstract evaluation on a nearly full queue; open finding D42); what term_push leaves to be read is the pushed keys followed by the keys that were waiting, on every queue state evaluated (Q1, abstract evaluation with a modelled queue); the input queue keeps 0 <= read position <= fill count <= its size at every exit of the functions that store either (I2, assumed by B1 for the push-back copy); every case of the vi command switch (and every second key of g) whose calls reach "
+    "C09": _p(["V3", "V4", "T4", "B1", "I2", "Q1", "Q2", "V8", "Q4"],
+              "term_read appends every key it hands out to the record term_cmd returns, guarded only by the record's own capacity test, never by other program state (Q4); the save of the key record for `.` is guarded only by values of the current loop iteration, never by a static or global (V8); term_push queues every key it is given or reports it to callers that look (Q2, abstract evaluation on a nearly full queue; open finding D42); what term_push leaves to be read is the pushed keys followed by the keys that were waiting, on every queue state evaluated (Q1, abstract evaluation with a modelled queue); the input queue keeps 0 <= read position <= fill count <= its size at every exit of the functions that store either (I2, assumed by B1 for the push-back copy); every case of the vi command switch (and every second key of g) whose calls reach "
               "lbuf_edit without crossing ex_command/undo/redo is a member of the string that "
               "gates the copy into the repeat buffer, and the repeat length is the copied length "
               "(V3).",
